@@ -924,6 +924,16 @@ def _mk_x(T, rs, shape, xfmt, xrank, ctx):
         Us = [rs.uniform(-1, 1, size=(n, xrank)) for n in shape]
         C = rs.uniform(-1, 1, size=(xrank,) * len(shape))
         return ctx.sut(T.TuckerTensor, tuple(Us), C, what="TuckerTensor"), rd.expand_tucker(Us, C)
+    if xfmt == "sum":
+        Xs = [rs.uniform(-1, 1, size=(n, max(1, xrank))) for n in shape]
+        A = rs.uniform(-1, 1, size=shape)
+        C = ctx.sut(T.CanonicalTensor, tuple(Xs), what="CanonicalTensor")
+        return ctx.sut(T.TensorSum, C, A.copy(), what="TensorSum"), rd.expand_canonical(Xs) + A
+    if xfmt == "prod" and len(shape) >= 2:
+        Xs = [rs.uniform(-1, 1, size=(n, max(1, xrank))) for n in shape[:1]]
+        A = rs.uniform(-1, 1, size=shape[1:])
+        C = ctx.sut(T.CanonicalTensor, tuple(Xs), what="CanonicalTensor")
+        return ctx.sut(T.TensorProd, C, A.copy(), what="TensorProd"), np.multiply.outer(rd.expand_canonical(Xs), A)
     A = rs.uniform(-1, 1, size=shape)
     return A.copy(), A
 
@@ -970,7 +980,7 @@ def run_canop(spec, ctx):
     Y2 = ctx.sut(lambda: A @ X, what="__matmul__(tensor)")
     ctx.close("matmul_tensor", _asarray(ctx, Y2), yref, rtol=0.0, atol=K_ROUND * EPS * sx + TINY)
     ctx.flag("apply:" + spec["xfmt"])
-    if spec["xfmt"] != "full" and fmt_of(Y) != spec["xfmt"] and int(spec["R"]) == 1:
+    if spec["xfmt"] in ("canon", "tucker") and fmt_of(Y) != spec["xfmt"] and int(spec["R"]) == 1:
         raise Violation("apply:type", "rank-1 operator applied to %s gives %s" % (spec["xfmt"], fmt_of(Y)))
     # transpose
     At = ctx.sut(lambda: A.T, what="T")
@@ -1046,7 +1056,7 @@ def st_canop(draw):
             "termfmt": draw(st.sampled_from(["csr", "csr", "csc", "dia", "coo", "dense"])),
             "asformat": draw(st.sampled_from([None, "csr", "csc", "coo"])),
             "intvals": draw(st.booleans()), "seed": draw(st.integers(0, 10 ** 6)),
-            "xfmt": draw(st.sampled_from(["full", "canon", "tucker"])), "xrank": draw(st.integers(0, 2)),
+            "xfmt": draw(st.sampled_from(["full", "canon", "tucker", "sum", "prod"])), "xrank": draw(st.integers(0, 2)),
             "inner": draw(st.lists(st.integers(1, 3), min_size=3, max_size=3)),
             "limits": draw(st.lists(st.tuples(st.integers(0, 5), st.integers(0, 5)), min_size=3, max_size=3))}
 
